@@ -29,6 +29,9 @@ func tailCalls(w *lib.Writer, tier string, seed uint64) {
 			got := ""
 			if len(out.Trace) == 1 && len(out.Trace[0]) >= 1 {
 				got = out.Trace[0][0].String()
+				if out.Trace[0][0].Kind == "num" {
+					got = fmt.Sprint(int64(out.Trace[0][0].N))
+				}
 			}
 			ok := out.Ok && (name == "gofunc" || got == want)
 			id := w.Add(lib.Case{Input: map[string]any{"tail": name, "options": fmt.Sprintf("%+v", o)}, Observed: out.Summary(), Class: "tailcall-" + name,
